@@ -45,7 +45,7 @@ type simGetter struct {
 	RangeErrs    int           // fail the next N range calls
 	RangeMax     int           // longest prefix returned (0 = as asked)
 	RangeDelay   time.Duration // virtual delay of range calls
-	HeadMode     string        // "" tip | stale | expired | error | soft
+	HeadMode     string        // "" tip | stale | expired | error | soft | future
 	HeadStale    uint64        // heights below tip for "stale"
 	HeadDelay    time.Duration
 	ByHeightFail int // fail the j-th (0-based) GetByHeight call from now; -1 never
@@ -167,6 +167,9 @@ func (g *simGetter) Head(ctx context.Context, opts ...header.HeadOption[*vh.Head
 		out = g.chain.At(hh)
 	case "expired":
 		out = exp
+	case "future":
+		// the peers' head is stamped far ahead of the clock: not expired, but it cannot be verified
+		out = vh.Variant(g.chain.At(tip), vh.AdvFuture, 1)
 	default:
 		out = g.chain.At(tip)
 	}
